@@ -236,9 +236,12 @@ def _supply(item):
                     bad = ~((np.abs(af - bf) <= 1e-9 * np.maximum(1.0, np.abs(af))) | (np.isnan(af) & np.isnan(bf)))
                 if bad.any():
                     i = int(np.argmax(bad))
-                    if not exact and len(res["amplified"]) < 5 and np.abs(af - bf).max() > 1e-6:
-                        # a tiny conversion error may flip a threshold comparison; reported, not judged
-                        res["amplified"].append(dict(input=c, supplied=new, node=t, a=af[i], b=bf[i]))
+                    if not exact:
+                        # the supplied column differs from the original in the last bits, so a threshold comparison
+                        # downstream may flip; reported, not judged (the conversion itself is judged above, exactly)
+                        res["amplified_count"] = res.get("amplified_count", 0) + 1
+                        if len(res["amplified"]) < 5:
+                            res["amplified"].append(dict(input=c, supplied=new, node=t, a=af[i], b=bf[i]))
                         break
                     viol(f"supply:{c}->{t}", f"supplying {new} (= {c} x {N[u0] / N[u]:.6g}) instead of {c} changes {t}: "
                                              f"{af[i]!r} -> {bf[i]!r} (exact round trip: {exact})")
@@ -298,6 +301,7 @@ def summarize(results, tier, seed):
         supply_runs=sum(r["runs"] for r in sup), supply_runs_with_exact_round_trip=sum(r["exact_runs"] for r in sup),
         nodes_compared_in_supply_runs=sum(r["nodes_compared"] for r in sup),
         threshold_flips_after_inexact_conversion=amp[:5],
+        runs_with_threshold_flip_after_inexact_conversion=sum(r.get("amplified_count", 0) for r in sup),
         converter_calls=sum(r["calls"] for r in conv), converter_pairs=sum(r["pairs"] for r in conv),
         unavailable_variants=sorted({n for r in fac for n in r["unavailable"]}),
         dates=sorted({r["date"] for r in fac}),
